@@ -106,13 +106,32 @@ class Built:
     pass
 
 
-def make_vf(poly, order, jacobian=None):
+def make_vf(poly, order, jacobian=None, log=None):
+    """The user vector field (a seam: the simulator sees every evaluation).  Concrete evaluations
+    are appended to `log` as (t, [u...]); traced ones (inside jacfwd / eval_shape / jit) are not."""
+    import jax
+
     d = poly.d
     jac = jacobian if jacobian is not None else probdiffeq.jacobian_materialize()
+
+    def record(xs, t):
+        if log is not None and not any(isinstance(v, jax.core.Tracer) for v in list(xs) + [t]):
+            log.append((float(t), [float(v) for v in xs]))
+
     if order == 1:
-        return probdiffeq.ode(lambda y, *, t: poly.eval_jnp([y[i] for i in range(d)], t), jacobian=jac)
-    return probdiffeq.ode_order_two(
-        lambda y, dy, *, t: poly.eval_jnp([y[i] for i in range(d)] + [dy[i] for i in range(d)], t), jacobian=jac)
+        def f1(y, *, t):
+            xs = [y[i] for i in range(d)]
+            record(xs, t)
+            return poly.eval_jnp(xs, t)
+
+        return probdiffeq.ode(f1, jacobian=jac)
+
+    def f2(y, dy, *, t):
+        xs = [y[i] for i in range(d)] + [dy[i] for i in range(d)]
+        record(xs, t)
+        return poly.eval_jnp(xs, t)
+
+    return probdiffeq.ode_order_two(f2, jacobian=jac)
 
 
 def make_strategy(name):
@@ -136,7 +155,8 @@ def build(cfg, *, strategy=None, calib=None, ssm=None, lam=None, with_ref=True):
     q, d, order = cfg["q"], cfg["d"], cfg["order"]
     poly = Poly.from_json(cfg["poly"])
     b.poly = poly
-    b.vf = make_vf(poly, order)
+    b.vf_log = []
+    b.vf = make_vf(poly, order, log=b.vf_log)
     u0 = jnp.asarray(cfg["u0"], dtype=float)
     inits = (u0,) if order == 1 else (u0, jnp.asarray(cfg["du0"], dtype=float))
     t0 = cfg["t0"]
